@@ -149,3 +149,205 @@ B("C06-b13", "2D cells stored camera-major on both sides", D2,
 B("C06-b14", "signature constant altered", TDF, "SIGNATURE = b\"\\x82K`A", "SIGNATURE = b\"\\x83K`A", expect="SIGNATURE")
 P("C06-p01", "attribute renamed consistently", OPT, "BTSString.bwrite(file, 32, self.lens_name)", "BTSString.bwrite(file, 32, self.lens)", OPT, "        self.lens_name = lens_name\n", "        self.lens_name = lens_name\n        self.lens = lens_name\n")
 P("C06-p02", "two independent header reads reordered by statement grouping", EMG, "        # frequency\n        i32.bwrite(file, self.frequency)\n", "        # frequency\n        frequency = self.frequency\n        i32.bwrite(file, frequency)\n")
+
+# ------------------------------------------------------------------------------------------------ C07
+B("C07-b01", "full-table check moved below the entry write", TDF,
+  "        self.entries[unusedBlockPos] = new_entry\n", "        self.entries[unusedBlockPos] = new_entry\n        if len(comment) > 255:\n            raise ValueError(\"comment too long\")\n", expect="validate-before-effect")
+B("C07-b02", "block serialised straight to the handle again", TDF, "        self.handler.write(block_buffer.getvalue())", "        newBlock._write(self.handler)", expect="serialis")
+B("C07-b03", "table updated before the block is serialised", TDF,
+  "        entry_buffer = BytesIO()\n        new_entry._write(entry_buffer)\n        block_buffer = BytesIO()\n        newBlock._write(block_buffer)\n", "        entry_buffer = BytesIO()\n        new_entry._write(entry_buffer)\n        block_buffer = BytesIO()\n",
+  TDF, "        # write new block\n        self.handler.seek(new_entry.offset, 0)\n", "        # write new block\n        newBlock._write(block_buffer)\n        self.handler.seek(new_entry.offset, 0)\n", expect="validate-before-effect")
+B("C07-b04", "remove_block deletes the entry before knowing the type exists", TDF,
+  "        # find block\n        try:\n            oldEntryPos, oldEntry = next(", "        # find block\n        self.handler.truncate()\n        try:\n            oldEntryPos, oldEntry = next(", expect="validate-before-effect")
+B("C07-b05", "a setter that removes before it validates", TDF, "        self.replace_block(data) if self.has_emg else self.add_block(data)", "        if self.has_emg:\n            self.remove_block(data.type)\n        self.add_block(data)", expect="validate-before-effect")
+B("C07-b06", "trailing-slot check after the table store", TDF,
+  "        if any(\n            entry.type != BlockType.unusedSlot\n            for entry in self.entries[unusedBlockPos + 1 :]\n        ):\n            raise IOError(\"All unused slots must be at the end of the file\")\n\n        # replace the entry\n        self.entries[unusedBlockPos] = new_entry\n",
+  "        # replace the entry\n        self.entries[unusedBlockPos] = new_entry\n        if any(\n            entry.type != BlockType.unusedSlot\n            for entry in self.entries[unusedBlockPos + 1 :]\n        ):\n            raise IOError(\"All unused slots must be at the end of the file\")\n", expect="validate-before-effect")
+B("C07-b07", "duplicate check after the entry was written", TDF,
+  "        if newBlock.type != BlockType.unusedSlot and any(\n            entry.type == newBlock.type for entry in self.entries\n        ):\n            raise ValueError(\n                (\n                    f\"There's already a block of this type {newBlock.type}\"\n                    \" .Remove it first\"\n                )\n            )\n", "",
+  TDF, "        # update all unused slots's offset\n", "        if any(entry.type == newBlock.type for entry in self.entries[:unusedBlockPos]):\n            raise ValueError(\"duplicate\")\n        # update all unused slots's offset\n", expect="validate-before-effect")
+P("C07-p01", "permission check spelled differently", TDF, "        if self._mode == \"rb\":\n            raise PermissionError(\n                \"Can't add blocks", "        if \"+\" not in self._mode:\n            raise PermissionError(\n                \"Can't add blocks")
+P("C07-p02", "buffers created inline", TDF, "        block_buffer = BytesIO()\n        newBlock._write(block_buffer)\n", "        block_buffer = BytesIO()\n        newBlock._write(block_buffer)\n        payload_size = len(block_buffer.getvalue())\n")
+
+# ------------------------------------------------------------------------------------------------ C08
+B("C08-b01", "__exit__ forgets to reset the mode", TDF, "        self._inside_context = False\n        self._mode = \"rb\"\n        self.handler.close()", "        self._inside_context = False\n        self.handler.close()", expect="_mode")
+B("C08-b02", "handle opened with a literal read-write mode", TDF, "self.file_path.open(self._mode)", "self.file_path.open(\"r+b\")", expect="handle")
+B("C08-b03", "__exit__ closes only on a clean exit", TDF, "        self.handler.close()\n\n    @property\n    @provide_context_if_needed\n    def blocks", "        if exc_type is None:\n            self.handler.close()\n\n    @property\n    @provide_context_if_needed\n    def blocks", expect="close")
+B("C08-b04", "a reader repairs offsets by writing", TDF, "        return any(entry.type == BlockType.data3D for entry in self.entries)", "        self.handler.write(b\"\")\n        return any(entry.type == BlockType.data3D for entry in self.entries)", expect="effect")
+B("C08-b05", "has_events rewritten to add a block", TDF, "        return any(i for i in self.entries if i.type == BlockType.temporalEventsData)", "        self.add_block(None)\n        return any(i for i in self.entries if i.type == BlockType.temporalEventsData)", expect="reader-purity")
+B("C08-b06", "a new public mutator with its own open()", TDF, "    @property\n    def nBytes(self) -> int:", "    def touch(self) -> None:\n        with open(self.file_path, \"r+b\") as f:\n            f.write(b\"\")\n\n    @property\n    def nBytes(self) -> int:", expect="effect-owners")
+B("C08-b08", "__exit__ leaves the inside flag set", TDF, "        self._inside_context = False\n        self._mode = \"rb\"", "        self._mode = \"rb\"", expect="_inside_context")
+B("C08-b09", "decoder writes to its stream", EVT, "        nEvents = i32.bread(stream)\n", "        nEvents = i32.bread(stream)\n        stream.write(b\"\")\n", expect="reader-purity")
+B("C08-b10", "copy opens the source for update", TDF, "        shutil.copyfile(self.file_path, new_file_path)", "        with self.file_path.open(\"r+b\") as src:\n            new_file_path.write_bytes(src.read())")
+B("C08-b11", "mode set to append-update elsewhere", TDF, "    def __len__(self) -> int:\n", "    def unlock(self) -> None:\n        self._mode = \"a+b\"\n\n    def __len__(self) -> int:\n", expect="mode-lifecycle")
+P("C08-p01", "__exit__ statements reordered", TDF, "        self._inside_context = False\n        self._mode = \"rb\"\n        self.handler.close()", "        self.handler.close()\n        self._mode = \"rb\"\n        self._inside_context = False")
+P("C08-p02", "close in a finally clause", TDF, "        self._inside_context = False\n        self._mode = \"rb\"\n        self.handler.close()", "        try:\n            self._inside_context = False\n            self._mode = \"rb\"\n        finally:\n            self.handler.close()")
+
+# ------------------------------------------------------------------------------------------------ C09
+B("C09-b01", "truncate dropped", TDF, "        self.handler.write(temp)\n        self.handler.truncate()\n", "        self.handler.write(temp)\n", expect="tail")
+B("C09-b02", "flush before the tail write", TDF, "        self.handler.seek(oldEntry.offset, 0)\n        self.handler.write(temp)\n        self.handler.truncate()\n        self.handler.flush()", "        self.handler.seek(oldEntry.offset, 0)\n        self.handler.flush()\n        self.handler.write(temp)\n        self.handler.truncate()", expect="tail-move-order")
+B("C09-b03", "shift adds instead of subtracting", TDF, "entry.offset -= oldEntry.size", "entry.offset += oldEntry.size", expect="shift")
+B("C09-b04", "shift loop starts one entry late", TDF, "for entry in self.entries[oldEntryPos:]:", "for entry in self.entries[oldEntryPos + 1 :]:", expect="shift-loop")
+B("C09-b05", "Tdf.new points the slots at a 256-byte stride", TDF, "blockOffset = entryOffset + nEntries * 288", "blockOffset = entryOffset + nEntries * 256", expect="initial-layout")
+B("C09-b06", "later slots re-pointed to the start of the new block", TDF, "            entry.offset = new_entry.offset + new_entry.size", "            entry.offset = new_entry.offset", expect="later slot")
+B("C09-b07", "something seeks between the tail write and truncate", TDF, "        self.handler.write(temp)\n        self.handler.truncate()", "        self.handler.write(temp)\n        self.handler.seek(0, 2)\n        self.handler.truncate()", expect="tail-move-order")
+B("C09-b08", "shift only unused entries", TDF, "        for entry in self.entries[oldEntryPos:]:\n            entry.offset -= oldEntry.size\n            entry._write(self.handler)", "        for entry in self.entries[oldEntryPos:]:\n            if entry.type == BlockType.unusedSlot:\n                entry.offset -= oldEntry.size\n            entry._write(self.handler)", expect="shift-loop")
+B("C09-b09", "bytes after the table in a new file", TDF, "        return Tdf(filePath)", "            f.write(b\"\\x00\" * 4)\n        return Tdf(filePath)", expect="initial-layout")
+P("C09-p01", "tail bound to a differently named local", TDF, "        temp = self.handler.read()\n        self.handler.seek(oldEntry.offset, 0)\n        self.handler.write(temp)", "        tail = self.handler.read()\n        self.handler.seek(oldEntry.offset, 0)\n        self.handler.write(tail)")
+
+# ------------------------------------------------------------------------------------------------ C10
+B("C10-b01", "flush dropped from add_block", TDF, "        # and that the changes are written to disk\n        self.handler.flush()", "        # and that the changes are written to disk", expect="flush-on-exit")
+B("C10-b02", "re-pointed slot not written", TDF, "            entry.offset = new_entry.offset + new_entry.size\n            self.handler.seek(64 + 288 * n, 0)\n            entry._write(self.handler)", "            entry.offset = new_entry.offset + new_entry.size", expect="dirty-entry")
+B("C10-b03", "new entry written one slot late", TDF, "self.handler.seek(64 + 288 * unusedBlockPos, 0)", "self.handler.seek(64 + 288 * (unusedBlockPos + 1), 0)", expect="slot-position")
+B("C10-b04", "enumerate index off by one", TDF, "self.entries[unusedBlockPos + 1 :], start=unusedBlockPos + 1", "self.entries[unusedBlockPos + 1 :], start=unusedBlockPos", expect="slot-position")
+B("C10-b05", "appended slot kept in memory only", TDF, "        self.entries.append(newEntry)\n        newEntry._write(self.handler)", "        self.entries.append(newEntry)", expect="dirty-entry")
+B("C10-b06", "table cached across contexts", TDF, "        self.entries = [TdfEntry._build(self.handler) for _ in range(self.nEntries)]", "        if not hasattr(self, \"entries\"):\n            self.entries = [TdfEntry._build(self.handler) for _ in range(self.nEntries)]", expect="parse-on-enter")
+B("C10-b07", "size reported from the table", TDF, "        return self.file_path.stat().st_size", "        return 64 + 288 * self.nEntries + sum(e.size for e in self.entries)", expect="size-from-fs")
+B("C10-b08", "shift rewrite starts at the wrong slot", TDF, "self.handler.seek(64 + 288 * oldEntryPos, 0)", "self.handler.seek(64 + 288 * (oldEntryPos + 1), 0)", expect="slot-position")
+B("C10-b09", "get_block decodes at the entry size instead of its offset", TDF, "self.handler.seek(entry.offset, 0)", "self.handler.seek(entry.size, 0)", expect="read-through-handle")
+B("C10-b10", "entry written before it is stored, then stored elsewhere", TDF, "self.entries[unusedBlockPos] = new_entry", "self.entries[unusedBlockPos - 1] = new_entry")
+P("C10-p01", "explicit seek inside the shift loop", TDF, "        for entry in self.entries[oldEntryPos:]:\n            entry.offset -= oldEntry.size\n            entry._write(self.handler)",
+  "        for n, entry in enumerate(self.entries[oldEntryPos:], start=oldEntryPos):\n            entry.offset -= oldEntry.size\n            self.handler.seek(64 + 288 * n, 0)\n            entry._write(self.handler)")
+
+# ------------------------------------------------------------------------------------------------ C11
+B("C11-b01", "has_emg tests the force/torque type", TDF, "            entry.type == BlockType.electromyographicData for entry in self.entries", "            entry.type == BlockType.forceAndTorqueData for entry in self.entries", expect="accessor-agreement")
+B("C11-b02", "emg getter fetches data3D", TDF, "return self.get_block(EMG.type)", "return self.get_block(Data3D.type)", expect="accessor-agreement")
+B("C11-b03", "__len__ counts all entries", TDF, "return sum(1 for i in self.entries if i.type != BlockType.unusedSlot)", "return sum(1 for i in self.entries)", expect="count-definition")
+B("C11-b04", "index bound inclusive", TDF, "if 0 <= index_or_type < len(self.entries):", "if 0 <= index_or_type <= len(self.entries):", expect="lookup-contract")
+B("C11-b05", "setter adds when present and replaces when absent", TDF, "self.replace_block(data) if self.has_events else self.add_block(data)", "self.add_block(data) if self.has_events else self.replace_block(data)", expect="accessor-agreement")
+B("C11-b06", "duplicate refusal swallowed again", TDF,
+  "        if newBlock.type != BlockType.unusedSlot and any(\n            entry.type == newBlock.type for entry in self.entries\n        ):\n            raise ValueError(\n                (\n                    f\"There's already a block of this type {newBlock.type}\"\n                    \" .Remove it first\"\n                )\n            )\n",
+  "        try:\n            if newBlock.type != BlockType.unusedSlot and any(\n                entry.type == newBlock.type for entry in self.entries\n            ):\n                raise ValueError(\"duplicate\")\n        except Exception:\n            pass\n", expect="swallow")
+B("C11-b07", "events setter consults the EMG predicate", TDF, "self.replace_block(data) if self.has_events else self.add_block(data)", "self.replace_block(data) if self.has_emg else self.add_block(data)", expect="accessor-agreement")
+B("C11-b08", "blocks lists only live entries of known types", TDF, "return [self.get_block(entry.type) for entry in self.entries]", "return [self.get_block(entry.type) for entry in self.entries if entry.size]", expect="count-definition")
+B("C11-b09", "a predicate that does not exist", TDF, "self.replace_block(data) if self.has_data3D else self.add_block(data)", "self.replace_block(data) if self.has_data3d else self.add_block(data)", expect="self-attr-resolves")
+B("C11-b10", "duplicate refusal raises KeyError", TDF, "            raise ValueError(\n                (\n                    f\"There's already a block", "            raise KeyError(\n                (\n                    f\"There's already a block", expect="duplicate-refusal")
+B("C11-b11", "lookup by type returns the last match", TDF, "entry = next((e for e in self.entries if e.type == index_or_type), None)", "entry = next((e for e in reversed(self.entries) if e.type == index_or_type), None)", expect="lookup-contract")
+P("C11-p01", "predicate written with a generator of entries", TDF, "        return any(entry.type == BlockType.data3D for entry in self.entries)", "        return any(e.type == BlockType.data3D for e in self.entries)")
+P("C11-p02", "setter as an if statement", TDF, "        self.replace_block(data) if self.has_emg else self.add_block(data)", "        if self.has_emg:\n            self.replace_block(data)\n        else:\n            self.add_block(data)")
+
+# ------------------------------------------------------------------------------------------------ C12
+B("C12-b01", "reserved word of the EMG track passed to the constructor", EMG, "        i32.skip(stream)  # padding\n        segmentData", "        pad = i32.bread(stream)  # padding\n        nSegments = nSegments + pad\n        segmentData", expect="pad")
+B("C12-b02", "decode before the cut", TYP, "return la[:pos].decode(encoding)", "return la.decode(encoding)[:pos]", expect="nul-cut")
+B("C12-b03", "rstrip instead of a cut at the first NUL", TYP, "            pos = la.index(b\"\\x00\")\n            return la[:pos].decode(encoding)", "            return la.rstrip(b\"\\x00\").decode(encoding)", expect="nul-cut")
+B("C12-b04", "writer stores an attribute in the reserved word", OPT, "        # Reserved 0\n        i32.bpad(file, 1)\n\n        # lens name", "        # Reserved 0\n        i32.bwrite(file, self.logical_camera_index)\n\n        # lens name", expect="writer-pad-constant")
+B("C12-b05", "platform pad decoded as text again", FPC, "        stream.seek(256, 1)  # Undocumented padding", "        BTSString.bread(stream, 256)  # Undocumented padding", expect="pad-not-interpreted")
+B("C12-b06", "entry reserved word checked to be zero", TDF, "        i32.skip(file)\n        comment", "        if i32.bread(file) != 0:\n            raise ValueError(\"corrupt entry\")\n        comment", expect="pad")
+B("C12-b07", "header reserved words kept on the object and compared", TDF, "        # pad 20 bytes\n        i32.skip(self.handler, 5)", "        # pad 20 bytes\n        self.reserved = i32.bread(self.handler, 5)", expect="pad-no-flow")
+B("C12-b08", "string writer pads with spaces after the terminator", TYP, "padding = b\"\\x00\" * (size - len(dat))", "padding = b\" \" * (size - len(dat))", expect="writer-pad-constant")
+P("C12-p01", "skip spelled as a raw read", D3, "        i32.skip(stream)\n        segmentData", "        stream.read(4)\n        segmentData")
+P("C12-p02", "cut with partition", TYP, "            pos = la.index(b\"\\x00\")\n            return la[:pos].decode(encoding)", "            pos = la.index(b\"\\x00\")\n            return la.partition(b\"\\x00\")[0].decode(encoding)")
+
+# ------------------------------------------------------------------------------------------------ C13
+B("C13-b01", ">= refuses strings that still fit", TYP, "if len(dat) > size:", "if len(dat) >= size:", expect="str-refuse-before-return")
+B("C13-b02", "terminator not counted", TYP, "if len(dat) > size:", "if len(dat) - 1 > size:", expect="str-refuse-before-return")
+B("C13-b03", "errors=replace", TYP, "data.encode(\"windows-1252\")", "data.encode(\"windows-1252\", errors=\"replace\")", expect="str-strict-codec")
+B("C13-b04", "truncation instead of refusal", TYP, "return dat + padding", "return (dat + padding)[:size]")
+B("C13-b05", "space padding", TYP, "padding = b\"\\x00\" * (size - len(dat))", "padding = b\" \" * (size - len(dat))", expect="str-terminated")
+B("C13-b06", "terminator dropped", TYP, "dat = data.encode(\"windows-1252\") + b\"\\x00\"", "dat = data.encode(\"windows-1252\")")
+B("C13-b07", "reader default latin-1", TYP, "def read(size: int, data: bytes, encoding: str = \"windows-1252\")", "def read(size: int, data: bytes, encoding: str = \"latin-1\")", expect="codec")
+B("C13-b08", "a call site with width 255", EVT, "BTSString.bwrite(stream, 256, self.label)", "BTSString.bwrite(stream, 255, self.label)", expect="str-call-sites")
+B("C13-b09", "check moved after the return value is built with max()", TYP, "        if len(dat) > size:\n            raise ValueError(\n                f\"The string is too long: max {size} chars, got {len(dat)}\"\n            )\n        return dat + padding", "        return dat + padding")
+B("C13-b10", "refusal with TypeError", TYP, "            raise ValueError(\n                f\"The string is too long", "            raise TypeError(\n                f\"The string is too long", expect="str-refuse-before-return")
+P("C13-p01", "padding computed after the check", TYP, "        padding = b\"\\x00\" * (size - len(dat))\n        if len(dat) > size:\n            raise ValueError(\n                f\"The string is too long: max {size} chars, got {len(dat)}\"\n            )\n        return dat + padding",
+  "        if len(dat) > size:\n            raise ValueError(\n                f\"The string is too long: max {size} chars, got {len(dat)}\"\n            )\n        padding = b\"\\x00\" * (size - len(dat))\n        return dat + padding")
+P("C13-p02", "codec alias cp1252", TYP, "data.encode(\"windows-1252\")", "data.encode(\"cp1252\")")
+P("C13-p03", "comparison written the other way round", TYP, "if len(dat) > size:", "if size < len(dat):")
+
+# ------------------------------------------------------------------------------------------------ C14
+P("C14-p03", "EMG.__eq__ relies on the compared channel map for the length (parallel lists)", EMG, "            and len(self._signals) == len(other._signals)\n", "")
+B("C14-b02", "EMG.__eq__ ignores the channel map again", EMG, "            and list(self._emgMap) == list(other._emgMap)\n", "", expect="eq-coverage")
+B("C14-b03", "EMGTrack compares with np.all(==)", EMG, "        return self.label == other.label and np.array_equal(\n            self.data, other.data, equal_nan=True\n        )", "        return self.label == other.label and np.all(self.data == other.data)", expect="eq-nan-aware")
+B("C14-b04", "ForceTorqueTrack drops equal_nan on torque", F3, "            and np.allclose(self.torque, other.torque, equal_nan=True)", "            and np.allclose(self.torque, other.torque)", expect="eq-nan-aware")
+B("C14-b05", "BTSCameraData loses its __eq__", CAL, "    def __eq__(self, o: object) -> bool:\n        if not isinstance(o, BTSCameraData):\n            return False\n        return (", "    def _same(self, o: object) -> bool:\n        if not isinstance(o, BTSCameraData):\n            return False\n        return (", expect="eq-defined")
+B("C14-b06", "Tdf.__eq__ ignores the slot count", TDF, "            self.version == o.version\n            and self.nEntries == o.nEntries\n            and self.blocks == o.blocks", "            self.version == o.version\n            and self.blocks == o.blocks", expect="eq-file")
+B("C14-b07", "Event.__eq__ ignores the label", EVT, "            self.label == o.label\n            and self.type == o.type", "            self.type == o.type", expect="eq-coverage")
+B("C14-b08", "ForcePlatformInfo.__eq__ ignores the position", FPC, "            and np.allclose(self.size, o.size)\n            and np.allclose(self.position, o.position)", "            and np.allclose(self.size, o.size)", expect="eq-coverage")
+B("C14-b09", "OpticalChannelData.__eq__ ignores the viewport", OPT, "            and self.camera_name == other.camera_name\n            and self.camera_viewport == other.camera_viewport", "            and self.camera_name == other.camera_name", expect="eq-coverage")
+B("C14-b10", "TemporalEventsData zips without length", EVT, "            and len(self.events) == len(other.events)\n", "", expect="eq-length")
+B("C14-b11", "Data3D equality replaced by a header comparison", D3,
+  "        buff1 = BytesIO()\n        buff2 = BytesIO()\n        self._write(buff1)\n        other._write(buff2)\n        return buff1.getvalue() == buff2.getvalue()\n\n    def __contains__", "        return self.nFrames == other.nFrames and self.frequency == other.frequency and self.startTime == other.startTime\n\n    def __contains__", expect="eq-coverage")
+B("C14-b12", "CalibrationDataBlock ignores the distortion model", CAL, "            self.distorsion_model == o.distorsion_model\n            and np.array_equal(self.calibration_volume_size", "            np.array_equal(self.calibration_volume_size", expect="eq-coverage")
+P("C14-p01", "conjuncts reordered", EVT, "            self.label == o.label\n            and self.type == o.type", "            self.type == o.type\n            and self.label == o.label")
+P("C14-p02", "list equality instead of zip + len", EVT, "            and len(self.events) == len(other.events)\n            and all(e1 == e2 for e1, e2 in zip(self.events, other.events))", "            and self.events == other.events")
+
+# ------------------------------------------------------------------------------------------------ C15
+B("C15-b01", "removeSignal forgets the channel list", EMG, "        del self._signals[pos]\n        del self._emgMap[pos]", "        del self._signals[pos]", expect="paired-mutation")
+B("C15-b02", "a raise between the two appends", FPD, "        self._plat_map.append(channel)\n        self._platforms.append(platform)", "        self._plat_map.append(channel)\n        if platform.nBytes < 0:\n            raise ValueError(\"bad platform\")\n        self._platforms.append(platform)", expect="paired-mutation")
+B("C15-b03", "explicit channel no longer checked for uniqueness", FPC, "            if channel in self._platformMap:\n                raise ValueError(f\"channel {channel} already in use\")\n", "", expect="channel-unique-guard")
+B("C15-b04", "automatic channel = number of items", EMG, "                next_channel = max(self._emgMap) + 1", "                next_channel = len(self._emgMap)", expect="auto-channel-fresh")
+B("C15-b05", "decoder installs the EMG map directly", EMG, "        d = EMG(frequency, nSamples, startTime, format)\n", "        d = EMG(frequency, nSamples, startTime, format)\n        d._emgMap = emgMap\n", expect="container-kind")
+B("C15-b06", "constructor fills platforms without channels again", FPC, "        self._platforms: List[ForcePlatformInfo] = []\n        self._platformMap = []\n        self.format = format\n        for platform in platforms or []:\n            self.add_platform(platform)", "        self._platforms: List[ForcePlatformInfo] = platforms or []\n        self._platformMap = []\n        self.format = format", expect="parallel-init")
+B("C15-b07", "setter clears only the platforms", FPC, "        self._platformMap = []\n        self._platforms = []\n        for channel, plat in channel_plats:", "        self._platforms = []\n        for channel, plat in channel_plats:", expect="paired-mutation")
+B("C15-b08", "remove deletes different positions", FPC, "        del self._platforms[index]\n        del self._platformMap[index]", "        del self._platforms[index]\n        del self._platformMap[-1]", expect="paired-mutation")
+B("C15-b09", "writer emits items before the map", EMG, "        # emgMap\n        i16.bwrite(file, self._emgMap)\n\n        # signals\n        for signal in self._signals:\n            signal._write(file)", "        # signals\n        for signal in self._signals:\n            signal._write(file)\n\n        # emgMap\n        i16.bwrite(file, self._emgMap)", expect="encoding-order")
+B("C15-b10", "label lookup compares objects with strings again", EMG, "if v.label == label)", "if v == label)", expect="lookup-types")
+B("C15-b11", "explicit channel refused with KeyError", EMG, "                raise ValueError(f\"Channel {channel} already in use\")", "                raise KeyError(f\"Channel {channel} already in use\")", expect="channel-unique-guard")
+P("C15-p01", "appends in the other order", FPD, "        self._plat_map.append(channel)\n        self._platforms.append(platform)", "        self._platforms.append(platform)\n        self._plat_map.append(channel)")
+P("C15-p02", "decoder installs a list built with list()", FPD, "block._plat_map = plat_map.tolist()", "block._plat_map = list(plat_map)")
+
+# ------------------------------------------------------------------------------------------------ C16
+B("C16-b01", "type check dropped", D3, "        if not isinstance(track, MarkerTrack):\n            raise TypeError(\"Track must be of type Track\")\n", "", expect="guarded-append")
+B("C16-b02", "length compared with the track count", D3, "if track.nFrames != self.nFrames:", "if track.nFrames != self.nTracks:", expect="guarded-append")
+B("C16-b03", "setter catches ValueError only", D3, "        except Exception as e:\n            self._tracks = oldTracks\n            raise e", "        except ValueError as e:\n            self._tracks = oldTracks\n            raise e", expect="atomic-assign")
+B("C16-b04", "old list saved after the reset", F3, "        oldTracks = self._tracks\n        self._tracks = []", "        self._tracks = []\n        oldTracks = self._tracks", expect="atomic-assign")
+B("C16-b05", "setter shortcut assigns the list directly", D3, "            for value in values:\n                self.add_track(value)", "            self._tracks = list(values)", expect="atomic-assign")
+B("C16-b06", "handler swallows the exception", F3, "        except Exception as e:\n            self._tracks = oldTracks\n            raise e", "        except Exception as e:\n            self._tracks = oldTracks", expect="atomic-assign")
+B("C16-b07", "decoder builds tracks with the track count", D3, "MarkerTrack._build(stream, nFrames) for _ in range(nTracks)", "MarkerTrack._build(stream, nTracks) for _ in range(nTracks)", expect="decoder-length")
+B("C16-b08", "a helper appends to _tracks directly", D3, "    @property\n    def nTracks(self) -> int:", "    def extend(self, tracks) -> None:\n        for t in tracks:\n            self._tracks.append(t)\n\n    @property\n    def nTracks(self) -> int:", expect="container-owners")
+B("C16-b09", "EMG length check against the signal count", EMG, "if signal.nSamples != self.nSamples:", "if signal.nSamples != self.nSignals:", expect="guarded-append")
+B("C16-b10", "length refusal raises TypeError", F3, "            raise ValueError(\n                (\n                    f\"Track with label {track.label} has {track.nFrames}\"", "            raise TypeError(\n                (\n                    f\"Track with label {track.label} has {track.nFrames}\"", expect="guarded-append")
+P("C16-p01", "bare except with re-raise", D3, "        except Exception as e:\n            self._tracks = oldTracks\n            raise e", "        except BaseException:\n            self._tracks = oldTracks\n            raise")
+
+# ------------------------------------------------------------------------------------------------ C17
+B("C17-b01", "existence test removed from new", TDF, "        if filePath.exists():\n            raise FileExistsError(\"File already exists\")\n", "", expect="exists-before-create")
+B("C17-b02", "copy tests the source path", TDF, "        if new_file_path.exists():", "        if not self.file_path.exists():", expect="exists-before-create")
+B("C17-b03", "copyfile arguments swapped", TDF, "shutil.copyfile(self.file_path, new_file_path)", "shutil.copyfile(new_file_path, self.file_path)")
+B("C17-b04", "16 slots", TDF, "nEntries = 14", "nEntries = 16", expect="nEntries")
+B("C17-b05", "slots point one entry past the header", TDF, "blockOffset = entryOffset + nEntries * 288", "blockOffset = entryOffset + 288", expect="new-layout")
+B("C17-b06", "signature check after the table parse", TDF,
+  "        if self.signature != self.SIGNATURE:\n            raise Exception(\"Invalid TDF file\")\n", "",
+  TDF, "        self.entries = [TdfEntry._build(self.handler) for _ in range(self.nEntries)]\n", "        self.entries = [TdfEntry._build(self.handler) for _ in range(self.nEntries)]\n        if self.signature != self.SIGNATURE:\n            raise Exception(\"Invalid TDF file\")\n", expect="open-checks")
+B("C17-b08", "existing target refused with ValueError", TDF, "            raise FileExistsError(\"File already exists\")", "            raise ValueError(\"File already exists\")", expect="exists-before-create")
+B("C17-b09", "missing file no longer refused", TDF, "        if not self.file_path.exists():\n            raise FileNotFoundError(f\"File {self.file_path} not found\")\n", "", expect="open-checks")
+B("C17-b10", "copy returns the original", TDF, "        return Tdf(new_file_path)", "        return self", expect="copy-direction")
+B("C17-b11", "inverted existence test", TDF, "        if filePath.exists():\n            raise FileExistsError", "        if not filePath.exists():\n            raise FileExistsError", expect="exists-before-create")
+P("C17-p01", "exclusive creation", TDF, "with filePath.open(\"wb\") as f:", "with filePath.open(\"xb\") as f:")
+
+# ------------------------------------------------------------------------------------------------ C18
+B("C18-b01", "membership is case-insensitive", D3, "return any(track.label == value for track in self._tracks)", "return any(track.label.lower() == value.lower() for track in self._tracks)", expect="contains-contract")
+B("C18-b02", "label lookup returns the last match", F3, "return next(track for track in self._tracks if track.label == key)", "return next(track for track in reversed(self._tracks) if track.label == key)", expect="getitem-contract")
+B("C18-b03", "__len__ over another attribute", EVT, "    def __len__(self) -> int:\n        return len(self.events)", "    def __len__(self) -> int:\n        return len(self.format.name)", expect="accessor-same-container")
+B("C18-b04", "absent label raises IndexError", EMG, "raise KeyError(f\"EMG signal with label {key} not found\")", "raise IndexError(f\"EMG signal with label {key} not found\")", expect="getitem-contract")
+B("C18-b05", "unsupported key falls through to None", D3, "        raise TypeError(f\"Invalid key type {type(key)}\")\n\n    def __iter__", "        return None\n\n    def __iter__", expect="getitem-contract")
+B("C18-b06", "lookup strips the key", EVT, "return next(e for e in self.events if e.label == item)", "return next(e for e in self.events if e.label == item.strip())", expect="getitem-contract")
+B("C18-b07", "iteration in reverse order", EMG, "        return iter(self._signals)", "        return iter(reversed(self._signals))", expect="accessor-same-container")
+B("C18-b08", "__contains__ returns False for other types", F3, "        raise TypeError(f\"Invalid key type {type(key)}\")\n\n    def __iter__", "        return False\n\n    def __iter__", expect="contains-contract")
+B("C18-b09", "lookup by prefix", D3, "return next(track for track in self._tracks if track.label == key)", "return next(track for track in self._tracks if track.label.startswith(key))", expect="getitem-contract")
+P("C18-p01", "loop variable renamed", D3, "return next(track for track in self._tracks if track.label == key)", "return next(t for t in self._tracks if t.label == key)")
+
+# ------------------------------------------------------------------------------------------------ C19
+B("C19-b01", "rotation matrix checked against the vector shape", D3, "            and rotationMatrix.shape == MAT3X3F.btype.shape", "            and rotationMatrix.shape == VEC3F.btype.shape", expect="rotationMatrix")
+B("C19-b02", "not dropped from the volume guard", F3, "        if not (isinstance(volume, np.ndarray) and volume.shape == Volume.btype.shape):", "        if isinstance(volume, np.ndarray) and volume.shape == Volume.btype.shape:", expect="volume")
+B("C19-b03", "and turned into or", D3, "            isinstance(translationVector, np.ndarray)\n            and translationVector.shape == VEC3F.btype.shape", "            isinstance(translationVector, np.ndarray)\n            or translationVector.shape == VEC3F.btype.shape", expect="translationVector")
+B("C19-b04", "Seelab focus check deleted", CAL, "        if not isinstance(focus, np.ndarray) or focus.shape != (2,):\n            raise TypeError(\"focus must be a (2,) shape numpy array\")\n", "", expect="focus")
+B("C19-b05", "coupled check reduced to one comparison", F3, "            application_point.shape != force.shape\n            or application_point.shape != torque.shape", "            application_point.shape != force.shape", expect="coupled-shape")
+B("C19-b06", "single event allows two values", EVT, "if len(values) > 1 and type == EventsDataType.singleEvent:", "if len(values) > 2 and type == EventsDataType.singleEvent:", expect="event-values")
+B("C19-b07", "viewport list branch mis-parenthesised again", TYP, "        elif isinstance(origin, (list, tuple)):\n            if len(origin) != 2:\n                raise TypeError(\"origin must be of length 2 if it is a list or tuple\")\n        else:\n            raise TypeError(\"origin must be a numpy array, a list or a tuple\")",
+  "        elif isinstance(origin, list) or isinstance(origin, tuple) and len(origin) != 2:\n            raise TypeError(\"origin must be of length 2 if it is a list or tuple\")", expect="viewport-accepts")
+B("C19-b08", "viewport coercion accepts any array", OPT, "        elif isinstance(camera_viewport, np.ndarray) and camera_viewport.shape == (\n            2,\n            2,\n        ):", "        elif isinstance(camera_viewport, np.ndarray):", expect="viewport-coercion")
+B("C19-b09", "calibration map accepts any rank", CAL, "            or len(cameras_calibration_map.shape) != 1", "            or len(cameras_calibration_map.shape) < 1", expect="cameras_calibration_map")
+B("C19-b10", "!= turned into == in a Seelab guard", CAL, "        if not isinstance(decentering, np.ndarray) or decentering.shape != (2,):", "        if not isinstance(decentering, np.ndarray) or decentering.shape == (2,):", expect="decentering")
+P("C19-p01", "guard with the literal shape", D3, "            and rotationMatrix.shape == MAT3X3F.btype.shape", "            and rotationMatrix.shape == (3, 3)")
+P("C19-p02", "De Morgan form", F3, "        if not (isinstance(volume, np.ndarray) and volume.shape == Volume.btype.shape):", "        if not isinstance(volume, np.ndarray) or volume.shape != Volume.btype.shape:")
+
+# ------------------------------------------------------------------------------------------------ C20
+B("C20-b01", "tracks list at class level", D3, "        self.flag = flag\n        self.nFrames = nFrames\n\n        self._tracks = []", "        self.flag = flag\n        self.nFrames = nFrames", D3, "class Data3D(Block):\n    type = BlockType.data3D\n", "class Data3D(Block):\n    type = BlockType.data3D\n    _tracks = []\n", expect="no-class-level-container")
+B("C20-b02", "mutable default stored in the EMG block", EMG, "    def __init__(\n        self, frequency, nSamples, startTime=0.0, format=EMGBlockFormat.byTrack\n    ) -> None:", "    def __init__(\n        self, frequency, nSamples, startTime=0.0, format=EMGBlockFormat.byTrack, signals=[]\n    ) -> None:",
+  EMG, "        self._signals = []\n        self._emgMap = []", "        self._signals = signals\n        self._emgMap = []", expect="no-shared-default")
+B("C20-b03", "module-level cache filled by the decoder", EVT, "class TemporalEventsDataFormat(Enum):", "_CACHE = {}\n\n\nclass TemporalEventsDataFormat(Enum):", EVT, "        t = TemporalEventsData(format, start_time)\n", "        t = TemporalEventsData(format, start_time)\n        _CACHE[nEvents] = t\n", expect="no-module-state")
+B("C20-b04", "optical setup default list again", OPT, "channels: Optional[List[OpticalChannelData]] = None,", "channels: Optional[List[OpticalChannelData]] = [],", OPT, "self.channels = channels if channels is not None else []", "self.channels = channels", expect="no-shared-default")
+B("C20-b05", "events list shared through a default", EVT, "    def __init__(self, format=TemporalEventsDataFormat.standard, start_time=0.0):", "    def __init__(self, format=TemporalEventsDataFormat.standard, start_time=0.0, events=[]):", EVT, "        self.events = []\n", "        self.events = events\n", expect="no-shared-default")
+B("C20-b06", "decoder returns a cached instance", EVT, "        t = TemporalEventsData(format, start_time)\n        t.events = [Event._build(stream) for _ in range(nEvents)]\n\n        return t", "        t = TemporalEventsData(format, start_time)\n        t.events = [Event._build(stream) for _ in range(nEvents)]\n\n        return TemporalEventsData._last", expect="decoder-fresh")
+B("C20-b07", "platform map never created per instance", FPD, "        self._plat_map = []\n        self._platforms = []", "        self._platforms = []", expect="fresh-containers")
+P("C20-p01", "default None replaced by a fresh list", OPT, "self.channels = channels if channels is not None else []", "self.channels = list(channels) if channels is not None else []")
